@@ -1086,6 +1086,20 @@ class Interp:
             return None
         e = z3.simplify(t - p)
         if p.decl().name() in free_consts(e):
+            # not syntactically affine: is it provably the identity on its range under the path facts?
+            # (e.g. the distinct variable numbers of a mapping with one row per variable)
+            sv = z3.Solver()
+            sv.set('timeout', 1500)
+            sv.set('smt.mbqi', False)
+            sv.add(*self.pc)
+            sv.add(*sym.COMP.axioms())
+            sv.add(*sym.EXTRA)
+            sv.add(p >= 0, p < lift(idx.n), t != p)
+            try:
+                if sv.check() == z3.unsat:
+                    return z3.IntVal(0)
+            except z3.Z3Exception:
+                pass
             return None
         return e
 
@@ -1142,8 +1156,12 @@ class Interp:
                 # scatter a[idx] = v : idx assumed duplicate-free (obligation), inverse via skolem function
                 inv = z3.Function(fresh_name('inv'), z3.IntSort(), z3.IntSort())
                 p = z3.Int(fresh_name('p'))
-                self.extra_axioms.append(z3.ForAll([p], z3.Implies(z3.And(p >= 0, p < lift(idx.n)), inv(lift(idx.f(p))) == p),
-                                                   patterns=[idx.f(p)] if is_z3(idx.f(p)) and not z3.is_int_value(idx.f(p)) else []))
+                body_ = z3.Implies(z3.And(p >= 0, p < lift(idx.n)), inv(lift(idx.f(p))) == p)
+                try:
+                    ax = z3.ForAll([p], body_, patterns=[inv(lift(idx.f(p)))])
+                except z3.Z3Exception:
+                    ax = z3.ForAll([p], body_)
+                self.extra_axioms.append(ax)
                 q = z3.Int(fresh_name('q'))
                 self.require(f'scatter-injective:{what}', z3.ForAll([p, q], z3.Implies(
                     z3.And(p >= 0, p < q, q < lift(idx.n)), lift(idx.f(p)) != lift(idx.f(q)))), kind='index')
